@@ -3,7 +3,9 @@ package c02
 
 import (
 	"fmt"
+	"os"
 	"strings"
+	"time"
 
 	"verifharness/internal/core"
 	"verifharness/internal/drv"
@@ -23,13 +25,24 @@ func randArgs(r *rng.R) tgen.Args {
 	return tgen.Args{S0: rng.Pick(r, tgen.StrPool), S1: rng.Pick(r, tgen.StrPool), B0: r.Bool(), B1: r.Bool(), Xs: xs, At: r.Intn(len(tgen.AttrSets))}
 }
 
+var t0 = time.Now()
+
+func lap(what string) {
+	if os.Getenv("VERIF_C02_TIMING") != "" {
+		fmt.Fprintf(os.Stderr, "[c02 timing] %-40s %6.1fs\n", what, time.Since(t0).Seconds())
+	}
+}
+
 func Run(c *core.Ctx) {
 	c.Rule = "programs: every .templ file of the repository (generator text tie) plus grammar-generated templ files (internal/tgen: all node kinds, six attribute kinds nested under conditionals, class/style/URL/spread sinks, if/else-if/else, for, switch, calls with and without blocks, children, hand-written callees, raw Go, comments, script/style elements with {{ }}, random single-/multi-line layout) plus templ files from the fragment grammar of the proof layer (tgen.Opts.Fragment: what coq/model/IrFragPrint.v's to_frag accepts), rendered with error-biased argument tuples; inputs: argument tuples from a pool of adversarial strings; distinct non-trivial = distinct (template, argument tuple) pairs rendered by the compiled generated code"
+	lap("start")
 	c.Proofs()
+	lap("proofs")
 	// (i) text tie of the generator model
 	inputs := gentie.RepoTemplates()
 	inputs = append(inputs, gentie.Random(c.Rng, c.N(60, 1500), tgen.Default())...)
 	gentie.Tie(c, inputs, false)
+	lap("generator text tie")
 
 	// (ii) compile the generated code and compare rendering with the denotation
 	nFiles := c.N(120, 1500)
@@ -127,9 +140,12 @@ func Run(c *core.Ctx) {
 	c.Extra["render_cases"] = cases
 
 	// (iii) the proof layer's fragment, tied to the generator text and to the compiled code
+	lap("render family")
 	fragment(c)
+	lap("fragment family")
 	hoistFamily(c)
 	ctlFamily(c)
+	lap("trace and control-transfer probes")
 	c.Sample(map[string]any{"note": "a rendered case", "args": randArgs(c.Rng)})
 }
 
